@@ -10,12 +10,12 @@ import (
 func init() {
 	register(&propSpec{ID: "C05", Level: "other", Run: runC05,
 		Explain: otherNote + "C05: decided = both IDs are aligned to the per-axis minimum zoom with integrate.ChangeExtendedSpatialIdsZoom itself; the array form is the disjunction of the pair form; every element of both lists is inserted/queried; the tree is never queried when empty; both halves of the altitude-key range are consumed (known finding D8); malformed IDs fail.",
-		Canary: []CanaryExpect{{Rule: "RANGEUSE", Bad: "canaryBadDropMax", Good: "canaryGoodBothBounds"}}})
+		Canary:  []CanaryExpect{{Rule: "RANGEUSE", Bad: "canaryBadDropMax", Good: "canaryGoodBothBounds"}}})
 	register(&propSpec{ID: "C06", Level: "other", Run: runC06,
 		Explain: otherNote + "C06: decided = result de-duplicated on every success path; the end-point voxels are part of every returned list; single-voxel short cut; every midpoint voxel is reported and looked up at the requested zooms; spatial form = extended form with h = v. Gap-freeness and 'only voxels the segment touches' are NOT decided."})
 	register(&propSpec{ID: "C07", Level: "other", Run: runC07,
 		Explain: otherNote + "C07: decided = output layout hZoom/x/y/vZoom/f with zooms copied, x and y wrapped by isomorphic computations, the vertical index exactly f + dv (no clamp, wrap or branch), malformed input yields the empty ID. Exactness of the float Pow/Mod arithmetic is NOT decided.",
-		Canary: []CanaryExpect{{Rule: "NOWRAP-F", Bad: "canaryBadClampF", Good: "canaryGoodPlainF"}}})
+		Canary:  []CanaryExpect{{Rule: "NOWRAP-F", Bad: "canaryBadClampF", Good: "canaryGoodPlainF"}}})
 	register(&propSpec{ID: "C08", Level: "other", Run: runC08,
 		Explain: otherNote + "C08: decided = the constant stencils are exactly the 6 / 8 / 26 offset sets, each offset once, all produced through GetShiftingSpatialID; the N-layer loop nest is the full box minus the origin applied to every input ID; N-layer result de-duplicated; negative layers rejected."})
 }
